@@ -122,7 +122,11 @@ func runC14(c *eng.Ctx, tier string) {
 			continue
 		}
 		res := f.Signature.Results()
-		recvKV := f.Signature.Recv() != nil && (eng.IsNamed(f.Signature.Recv().Type(), "db", "kv") || eng.IsNamed(f.Signature.Recv().Type(), "db", "DB"))
+		// what a db.DB method returns is what leaves the critical section
+		// (kv is reachable only through DB, whose methods hold the lock
+		// throughout; a kv-internal helper may hand a *secret to another kv
+		// method)
+		recvKV := f.Signature.Recv() != nil && (eng.IsNamed(f.Signature.Recv().Type(), "db", "DB") || (eng.IsNamed(f.Signature.Recv().Type(), "db", "kv") && calledFromDB(c.P, f)))
 		if !recvKV {
 			continue
 		}
@@ -324,26 +328,58 @@ func kvPairing(c *eng.Ctx, rule string) {
 			}
 			n++
 			val, ver := fields["Value"], fields["Version"]
-			site := "SecretValue{Value: " + eng.ValStr(val) + ", Version: " + eng.ValStr(ver) + "}"
 			if val == nil || ver == nil {
-				c.Bad(rule, f, in.Pos(), site, "both Value and Version are set from the same lookup", "a field is missing")
+				c.Bad(rule, f, in.Pos(), "SecretValue{...}", "both Value and Version are set from the same lookup", "a field is missing")
 				return
 			}
-			src := eng.OriginConv(val)
-			if ex, ok := src.(*ssa.Extract); ok && ex.Index == 0 {
-				src = ex.Tuple
+			// a small constructor helper taking the bytes and the number as
+			// parameters is judged at each of its call sites
+			argOf := func(cs ssa.CallInstruction, v ssa.Value) ssa.Value {
+				prm, isP := eng.OriginConv(v).(*ssa.Parameter)
+				if !isP || prm.Parent() != f {
+					return v
+				}
+				for i, q := range f.Params {
+					if q == prm && i < len(cs.Common().Args) {
+						return cs.Common().Args[i]
+					}
+				}
+				return v
 			}
-			lk, ok := src.(*ssa.Lookup)
-			if !ok {
-				c.Bad(rule, f, in.Pos(), site, "Value is the element looked up in secret.Versions", "Value does not come from a map lookup")
-				return
+			type inst struct {
+				fn       *ssa.Function
+				pos      ssa.Instruction
+				val, ver ssa.Value
 			}
-			fr, _, isF := eng.LoadedField(lk.X)
-			if !isF || !fr.Is("db", "secret", "Versions") {
-				c.Bad(rule, f, in.Pos(), site, "Value is the element looked up in secret.Versions", "looked up in "+eng.ValStr(lk.X))
-				return
+			var insts []inst
+			_, valIsParam := eng.OriginConv(val).(*ssa.Parameter)
+			if sites := eng.StaticCallSites(f); valIsParam && len(sites) > 0 && eng.IsHelper(sites[0].Parent(), f) {
+				for _, cs := range sites {
+					insts = append(insts, inst{cs.Parent(), cs, argOf(cs, val), argOf(cs, ver)})
+				}
+			} else {
+				insts = append(insts, inst{f, in, val, ver})
 			}
-			c.Check(c.P.MemSame(lk.Index, ver), rule, f, in.Pos(), site, "Version is the very key the bytes were read under (never one version's number with another's bytes)", "bytes read under key "+eng.ValStr(lk.Index)+", reported version "+eng.ValStr(ver))
+			n += len(insts) - 1
+			for _, it := range insts {
+				f, in, val, ver := it.fn, it.pos, it.val, it.ver
+				site := "SecretValue{Value: " + eng.ValStr(val) + ", Version: " + eng.ValStr(ver) + "}"
+				src := eng.OriginConv(val)
+				if ex, ok := src.(*ssa.Extract); ok && ex.Index == 0 {
+					src = ex.Tuple
+				}
+				lk, ok := src.(*ssa.Lookup)
+				if !ok {
+					c.Bad(rule, f, in.Pos(), site, "Value is the element looked up in secret.Versions", "Value does not come from a map lookup")
+					continue
+				}
+				fr, _, isF := eng.LoadedField(lk.X)
+				if !isF || !fr.Is("db", "secret", "Versions") {
+					c.Bad(rule, f, in.Pos(), site, "Value is the element looked up in secret.Versions", "looked up in "+eng.ValStr(lk.X))
+					continue
+				}
+				c.Check(c.P.MemSame(lk.Index, ver), rule, f, in.Pos(), site, "Version is the very key the bytes were read under (never one version's number with another's bytes)", "bytes read under key "+eng.ValStr(lk.Index)+", reported version "+eng.ValStr(ver))
+			}
 		})
 	}
 	if n < 2 {
@@ -491,4 +527,16 @@ func c14Audit(c *eng.Ctx) {
 	if n < 3 {
 		c.Undecided("R-C14-7", nil, 0, "audit.Writer operations", "fewer than 3 sites found")
 	}
+}
+
+
+// calledFromDB: the kv method is called directly by a method of db.DB (its
+// results are handed to the layer that returns them to the caller).
+func calledFromDB(p *eng.Prog, f *ssa.Function) bool {
+	for _, e := range p.CallGraph().CallersOf(f) {
+		if r := eng.Outer(e.Caller).Signature.Recv(); r != nil && eng.IsNamed(r.Type(), "db", "DB") {
+			return true
+		}
+	}
+	return false
 }
